@@ -134,7 +134,7 @@ func ruleSharedRead(w *World, r *Report, set map[*ssa.Function]bool) {
 			continue
 		}
 		fn := e.Instr.Parent()
-		if fn.Name() == "init" && fn.Parent() == nil && fn.Synthetic != "" {
+		if nm(fn) == "init" && fn.Parent() == nil && fn.Synthetic != "" {
 			continue // the package initialiser
 		}
 		for _, g := range wa.globals {
